@@ -158,6 +158,8 @@ def gen_scenario(rng, name, p_async=0.25, p_fwd=0.3, p_typeerror=0.08):
             # behind a signature-preserving decorator (functools.wraps); "sig": one that also sets `__signature__`
             # to the signature of what it wraps (for a method that signature lists the instance: D43)
             cb["wrapped"] = rng.choice([True, "sig"])
+        if form == "deco" and rng.random() < 0.35:
+            cb["static"] = rng.choice(["static", "class"])
         if form == "twin":
             cb["is_async"] = True
             cbs.append(cb)
@@ -385,7 +387,11 @@ def render(scn):
         elif f == "deco":
             a = cb["at"]
             deco = f"@{a[1]}.{a[2]}"
-            cls.append(("DECO", _def(cb, first="self", indent="    ", deco=deco)))
+            # the decorated function may in addition be a static or a class method (the event decorator innermost)
+            kind = cb.get("static")
+            if kind:
+                deco = f"@{kind}method\n    {deco}"
+            cls.append(("DECO", _def(cb, first={"static": None, "class": "cls"}.get(kind, "self"), indent="    ", deco=deco)))
         elif f == "twin":
             if cb["id"] in twins_done:
                 continue
